@@ -306,3 +306,22 @@ Proof.
     { intros d x d'' z Hx. induction Hx; lia. }
     apply Hge in Hy. lia.
 Qed.
+
+(* two indentation widths give two different documents (whatever white space the
+   original had): the text of every element with a child node is the indentation *)
+Lemma reindent_children_leading g i i' l :
+  structured l = true -> leading_text (reindent_children g i l ++ [IText i']) = Some i.
+Proof.
+  induction l as [| x r IH]; intros Hs; [discriminate |].
+  destruct x as [t | t a c | t]; [exact (IH Hs) | reflexivity | reflexivity].
+Qed.
+
+Theorem reindent_widths_differ : forall s s' t a c,
+  structured c = true -> sc_width s <> sc_width s' ->
+  reindent s (IElem t a c) <> reindent s' (IElem t a c).
+Proof.
+  intros s s' t a c Hs Hw Heq. unfold reindent in Heq. simpl in Heq. rewrite Hs in Heq.
+  injection Heq as Heq. apply (f_equal leading_text) in Heq.
+  rewrite !(reindent_children_leading _ _ _ c Hs) in Heq. injection Heq as Heq.
+  apply (f_equal (@length N)) in Heq. rewrite !repeat_length in Heq. lia.
+Qed.
